@@ -71,10 +71,11 @@ SCAN_ASSUME = [
     "the crlf cargo feature is off (default build); usize is 64 bit",
 ]
 PROPS["C12"] = {
-    "units": ["scan"],
-    "probes": {"scan": ["parse::Parser::read", "parse::Parser::read_eval", "depfile::parse", "scanner::Scanner::read"]},
+    "units": ["scan", "load", "canon"],
+    "probes": {"scan": ["parse::Parser::read", "parse::Parser::read_eval", "depfile::parse", "scanner::Scanner::read"], "load": ["load::Loader::path"], "canon": ["canon::canonicalize_path"]},
     "level": "proof",
-    "assumptions": SCAN_ASSUME + ["NOT yet covered: Scanner::format_parse_error (str slicing at char boundaries, D4), canonicalize_path's own panics (empty path D2, > 60 components D3) and the n2: error: plumbing in load.rs/run.rs/main.rs",
+    "assumptions": SCAN_ASSUME + ["canonicalize_path's two panics are preconditions (non-empty, <= 60 components; unit canon) that Loader::evaluate_path cannot discharge: KNOWN FINDING D2/D3 (unit load).  The other callers (Work::lookup for command-line names, record_finished for reported deps, db::read_path) are not checked for these two preconditions",
+        "NOT yet covered: Scanner::format_parse_error (str slicing at char boundaries, D4) and the n2: error: plumbing in load.rs/run.rs/main.rs",
         "allocation failure, stack overflow on recursive includes and file I/O are outside the contract language"],
 }
 PROPS["C15"] = {
@@ -179,11 +180,29 @@ PROPS["C11"] = {
     ],
 }
 
+PROPS["C13"] = {
+    "units": ["canon", "load", "dirty"],
+    "probes": {"canon": ["canon::canonicalize_path"], "load": ["load::Loader::path"], "dirty": ["work::Work::lookup", "work::Work::record_finished"]},
+    "level": "proof",
+    "assumptions": [
+        "PROVED for all inputs (unit canon): the real in-place two-cursor text of canonicalize_path computes exactly the byte-level spec function cn::canon (one case per component kind, written from the statement), never writes or reads out of bounds (every assert_unchecked is a discharged assert, R3), and 1 <= len(result) <= len(input); preconditions: non-empty, <= 60 component starts",
+        "BOUNDED (labelled, not counted as proved): that cn::canon itself is idempotent, yields the canonical form (no `.`/empty/`name/..` component, `..` only leading, root kept) and denotes the same lexical location is checked inside Verus by `by (compute)` for every byte string of length <= 5 (quick) / <= 7 (thorough) over {a . / \\}, 1364 / 21844 strings -- an exhaustive bounded check of the SPECIFICATION; the unbounded lemmas (idempotence by induction over the output grammar) were not attempted",
+        "call sites: GraphFiles::{id_from_canonical, lookup} (trusted hash-map stubs) require a canonical name; discharged at Loader::path (manifest paths), Work::lookup (command-line names) and Work::record_finished (reported dependencies) using the ASSUMED axiom canon(canon(s)) == canon(s) on the uninterpreted char-level canon; db::Reader::read_path (names read back from the log) is not checked",
+        "TRUSTED: StackStack (MaybeUninit array, unsafe) modelled as a sequence (R8); String::as_mut_vec / Vec::set_len specs (unsafe code: the bytes left in the vector are the string afterwards -- that they stay valid UTF-8 is the code comment's argument, not checked); Vec<u8> length <= isize::MAX",
+        "UTF-8 names: the byte-level spec treats every non-separator, non-dot byte alike, so multi-byte characters are covered by the unbounded refinement proof; the bounded adequacy check uses the 4-letter alphabet only",
+    ],
+}
+
 NOT_APPLICABLE = {
     "C16": "OS-level effects (posix_spawn file actions, pipes, /bin/sh, waitpid, cross-thread output order) sit behind unsafe FFI and threads; no contract on n2's own code can express them (DESIGN.md §8)",
 }
 
 LEVEL_TEXT = {
+    "C13": {
+        "text": "Unbounded proof (Verus) on the real text of canon.rs canonicalize_path: for every non-empty byte string with at most 60 component starts the in-place rewrite leaves exactly cn::canon(input) -- a recursive spec function with one case per component kind (empty and `.` removed, `..` removes the preceding kept component or is kept when there is none, root kept, everything else copied) -- with all indices in bounds, dst <= src, and 1 <= output length <= input length (loop invariant: run(input, src, data[..dst], stack) is constant).  Call sites Loader::path, Work::lookup and Work::record_finished hand only canonicalised names to the name->id map (precondition of the trusted map stubs).  Adequacy of the spec function (idempotent, canonical form, same location) is a BOUNDED exhaustive check by Verus `by (compute)` over all strings up to length 5/7 over {a . / \\}.",
+        "note": "proof (refinement, safety, length, call sites) + bounded (adequacy of the spec function; not counted as proved).  Trusted: StackStack model, as_mut_vec/set_len, idempotence axiom at call sites.",
+        "design_ref": "DESIGN.md §6 C13",
+    },
     "C11": {
         "text": "Unbounded proof (Verus) on the real text of eval.rs EvalString::{evaluate_inner, evaluate} and the Env impl of Vars: the expanded string equals the spec function ev::eval taken from the statement -- literals are copied, a reference is replaced by the expansion of the value found in the first env binding the name, that value being expanded against the envs AFTER that one only, and by nothing if no env binds it -- for all part lists and all lists of arbitrary environments; the mutual recursion terminates (decreases on the env list).",
         "note": "Only the expansion function is decided.  Which envs each caller passes (add_build's lookup order, eager top-level expansion, include/subninja scope) is not under contract; D9 (include does not extend the including scope) is a documented defect in that undecided part.",
